@@ -78,6 +78,51 @@ def cpp_tag(pkg, path):
     return '::%s::schema::%s' % (pkg, '::'.join(path))
 
 
+def const_fields(s):
+    """constant fields whose value is a scalar (numeric constant type, char constant of length 1, enum or
+    primitive field with valueRef): [(path, view C++ type, accessor name, expected value text)]"""
+    pkg = s['package']
+    types = s['types']
+    out = []
+
+    def enum_num(e, vname):
+        prim = e['enc'] if e['enc'] in S.PRIM_SIZE else find_type(types, e['enc'])['prim']
+        v = [x for x in e['values'] if x['name'] == vname][0]['value']
+        return str(ord(str(v))) if prim == 'char' else str(int(str(v)))
+
+    def ref_value(vr):
+        en, vn = vr.split('.', 1)
+        return enum_num(find_type(types, en), vn)
+
+    def level(path, view, lv):
+        for f in lv.get('fields', []):
+            exp = None
+            if f['type'] in S.PRIM_SIZE:
+                if f.get('presence') == 'constant' and f.get('valueRef') and f['type'] not in ('float', 'double'):
+                    exp = ref_value(f['valueRef'])
+            else:
+                t = find_type(types, f['type'])
+                if t['k'] == 'type' and t.get('presence') == 'constant' and t['prim'] not in ('float', 'double'):
+                    if t.get('valueRef'):
+                        exp = ref_value(t['valueRef']) if type_length(t) == 1 else None
+                    elif t['prim'] == 'char':
+                        exp = str(ord(str(t['const']))) if type_length(t) == 1 else None
+                    else:
+                        exp = str(int(str(t['const'])))
+                elif t['k'] == 'enum' and f.get('presence') == 'constant' and f.get('valueRef'):
+                    exp = ref_value(f['valueRef'])
+            if exp is not None:
+                out.append(('.'.join(path + (f['name'],)), view, f['name'], exp))
+        for g in lv.get('groups', []):
+            gp = path + (g['name'],)
+            level(gp, '::sbepp::group_traits<%s>::entry_type<char>' % cpp_tag(pkg, gp), g)
+
+    for m in s['messages']:
+        mp = ('messages', m['name'])
+        level(mp, '::sbepp::message_traits<%s>::value_type<char>' % cpp_tag(pkg, mp), m)
+    return out
+
+
 def gen_dumper(s):
     pkg = s['package']
     ents = entities(s)
@@ -88,6 +133,8 @@ def gen_dumper(s):
     src += ['} // namespace c18', '', 'int main()', '{', '    std::ostream& o = std::cout;']
     for path, kind, d, ctx in ents:
         src.append('    c18::dump_%s<%s>(o, "%s");' % (kind, cpp_tag(pkg, path), '.'.join(path)))
+    for path, view, name, exp in const_fields(s):
+        src.append('    c18::put_const(o, "%s", %s::%s());' % (path, view, name))
     src += ['    c18::dump_walk<%s>(o);' % cpp_tag(pkg, ('schema',)), '    return 0;', '}', '']
     return '\n'.join(src)
 
@@ -115,15 +162,21 @@ def parse_record(rec):
 
 def parse_dump(text):
     """dumper stdout -> ({path: {trait: value}}, {walk_types:..., walk_messages:...})"""
-    rows, walk = {}, {}
+    rows, walk, consts = {}, {}, {}
     for line in text.splitlines():
         if not line.strip():
             continue
         if line.startswith('#walk '):
             walk = dict(p.split('=', 1) for p in line[6:].split(' ') if '=' in p)
             continue
+        if line.startswith('#const '):
+            _, path, val = line.strip().split(' ', 2)
+            consts[path] = val
+            continue
         path, kv = parse_record(line)
         rows[path] = kv
+    for path, val in consts.items():
+        rows.setdefault(path, {})['const_value'] = val
     return rows, walk
 
 
@@ -317,6 +370,7 @@ class Oracle:
         """{path: (kind, {trait: value}, dont_care set)}"""
         s = self.s
         out = {}
+        consts = {p: exp for p, view, name, exp in const_fields(s)}
         for path, kind, d, ctx in entities(s):
             key = '.'.join(path)
             dont = set()
@@ -410,6 +464,8 @@ class Oracle:
                     r['deprecated'] = str(d['deprecated'])
             else:
                 r = {}
+            if key in consts:
+                r['const_value'] = consts[key]
             r['kind'] = kind
             r['predicates'] = ''.join('1' if k == kind else '0' for k in PREDICATES)
             out[key] = (kind, r, dont)
@@ -452,4 +508,4 @@ PREDICATES = ['type', 'enum', 'enum_value', 'set', 'set_choice', 'composite', 'f
 
 # traits only the dumper prints (type relations checked inside the C++), never part of the model table
 IMPL_ONLY = {'header_type_ok', 'id_type_ok', 'version_type_ok', 'underlying_ok', 'index_type_ok', 'dimension_type_ok',
-             'length_type_ok', 'size_bytes_5'}
+             'length_type_ok', 'size_bytes_5', 'const_value'}
